@@ -37,7 +37,9 @@ Inductive case :=
 | CLookup (input set : list kv) (probes : list (bytes * option value * bool))
 | CFilter (input : list kv) (f : fspec) (orig kept dropped orig_after : list kv)
 | CMerge (i1 i2 s1 s2 merged : list kv)
-| CEnc (input set : list kv) (emits : list bytes) (encoded : bytes).
+| CEnc (input set : list kv) (emits : list bytes) (encoded : bytes)
+| CIter (input : list kv) (f : option fspec) (contents : list kv) (ops : list iop) (obs : list iobs)
+| CMIter (i1 i2 s1 s2 merged : list kv) (ops : list iop) (obs : list iobs).
 
 Definition flag (b : bool) (code : N) : list N := if b then [] else [code].
 
@@ -79,6 +81,16 @@ Definition emit_of (s : list kv) (emits : list bytes) (v : value) : bytes :=
   match find (fun p => value_eqb v (snd (fst p))) (combine s emits) with
   | Some p => snd p
   | None => []
+  end.
+
+Definition iobs_eqb (a b : iobs) : bool :=
+  match a, b with
+  | ONext x, ONext y => Bool.eqb x y
+  | OAttr x, OAttr y => kv_eqb x y
+  | OIndexed i x, OIndexed j y => (i =? j)%Z && kv_eqb x y
+  | OLen x, OLen y => x =? y
+  | OSlice x, OSlice y => kvs_eqb x y
+  | _, _ => false
   end.
 
 Definition is_nil {A} (l : list A) : bool := match l with [] => true | _ => false end.
@@ -128,6 +140,18 @@ Definition check_case (c : case) : list N :=
                               | Some e => bytes_eqb e (snd p)
                               | None => true end) (combine s emits)) V_MISMATCH ++
       flag (encoding_ok set encoded) V_SPECFAIL
+  | CIter input f contents ops obs =>
+      let s := match f with
+               | None => new_set input
+               | Some g => fst (set_filter (fsem_model_total g) (new_set input))
+               end in
+      flag (kvs_eqb contents s && list_eqb iobs_eqb obs (iter_run (iter_new s) ops)) V_MISMATCH ++
+      flag (sorted_unique_b contents && iter_ok contents 0 true ops obs) V_SPECFAIL
+  | CMIter i1 i2 s1 s2 merged ops obs =>
+      let a := new_set i1 in let b := new_set i2 in
+      flag (kvs_eqb s1 a && kvs_eqb s2 b && kvs_eqb merged (merge_iter a b) &&
+            list_eqb iobs_eqb obs (miter_run (miter_new a b) ops)) V_MISMATCH ++
+      flag (merge_ok s1 s2 merged && iter_ok merged 0 true ops obs) V_SPECFAIL
   end.
 
 Definition run (cs : list case) : list (N * N) := index_from 0 check_case cs.
